@@ -409,7 +409,8 @@ impl World {
         let hdr = json!({"ev":"Init","flavor":w.cfg.flavor,"bufcap":w.cfg.buf_cap,"max":w.cfg.max_cost,
             "itemsize":w.item_size,"coster":match w.cfg.coster {CosterKind::Const2=>"const2",CosterKind::Mod3=>"mod3",CosterKind::Zero=>"zero"},
             "validator":match w.cfg.validator {ValKind::Always=>"always",ValKind::Sum5=>"sum5",ValKind::Asym3=>"asym3",ValKind::Never=>"never"},
-            "now":w.now_ms,"clients":w.cfg.clients,"nc":w.cfg.num_counters,"bi":w.cfg.buffer_items,"post":post(&w.cache)});
+            "now":w.now_ms,"clients":w.cfg.clients,"nc":w.cfg.num_counters,"bi":w.cfg.buffer_items,
+            "post":std::panic::catch_unwind(std::panic::AssertUnwindSafe(|| post(&w.cache))).unwrap_or(json!({"panic":true}))});
         w.t.push(hdr);
         w
     }
@@ -423,7 +424,14 @@ impl World {
         if ev.get("racy").is_none() {
             ev["racy"] = json!(false);
         }
-        ev["post"] = post(&self.cache);
+        // a panic of the code under test while its state is read (e.g. an estimator that cannot be
+        // queried) is data: it becomes an event the specification has no step for
+        match std::panic::catch_unwind(std::panic::AssertUnwindSafe(|| post(&self.cache))) {
+            Ok(p) => ev["post"] = p,
+            Err(e) => {
+                ev = json!({"ev":"Panic","during":ev["ev"],"msg":crate::util::panic_msg(e),"out":{"t":"pending"},"racy":false,"cbs":[]});
+            }
+        }
         ev["now"] = json!(self.now_ms);
         self.t.push(ev);
         self.events += 1;
@@ -842,11 +850,14 @@ impl World {
     /// popularity change (abstract in Cache.tla): record n accesses of harness key k in the TinyLFU
     pub fn bump(&mut self, k: u64, n: usize) {
         let (i, _) = KEYTAB[k as usize % KEYTAB.len()];
-        match &self.cache {
+        let r = std::panic::catch_unwind(std::panic::AssertUnwindSafe(|| match &self.cache {
             AnyCache::Sync(c) => verif::bump_sync(c, i, n),
             AnyCache::Async(c) => verif::bump_async(c, i, n),
+        }));
+        match r {
+            Ok(()) => self.emit(json!({"ev":"Bump","i":i,"n":n})),
+            Err(e) => self.emit(json!({"ev":"Panic","during":"Bump","msg":crate::util::panic_msg(e)})),
         }
-        self.emit(json!({"ev":"Bump","i":i,"n":n}));
     }
 
     pub fn advance(&mut self, dt_ms: u64) {
